@@ -386,7 +386,15 @@ impl<'a> GeneratorState<'a> {
                                     self.acc_in_use = true;
                                     return Ok(ExprType::A(signed));
                                 }
-                                return Ok(ExprType::Absolute(varname.clone(), true, offset + v.size as i32));
+                                let high = ExprType::Absolute(varname.clone(), true, offset + v.size as i32);
+                                if high_byte {
+                                    // The high byte of the result is the sign of the shifted value
+                                    if v.signed && (v.var_type == VariableType::Short || v.var_type == VariableType::ShortPtr) {
+                                        return self.generate_sign_extend(high, pos);
+                                    }
+                                    return Ok(ExprType::Immediate(0));
+                                }
+                                return Ok(high);
                             }
                             return Err(self.compiler_state.syntax_error("Incorrect right value for right shift operation on short (constant 8 only supported)", pos));
                         },
@@ -430,8 +438,20 @@ impl<'a> GeneratorState<'a> {
                     match right {
                         ExprType::Immediate(value) => {
                             if *value == 8 {
+                                if high_byte && !(v.signed && v.var_type == VariableType::ShortPtr) {
+                                    return Ok(ExprType::Immediate(0));
+                                }
                                 if acc_in_use { self.sasm(PHA)?; }
                                 signed = self.asm(LDA, left, pos, true)?;
+                                if high_byte {
+                                    // The high byte of the result is the sign of the shifted value
+                                    self.local_label_counter_if += 1;
+                                    let ifneg_label = format!(".ifneg{}", self.local_label_counter_if);
+                                    self.asm(ORA, &ExprType::Immediate(0x7F), pos, false)?;
+                                    self.asm(BMI, &ExprType::Label(ifneg_label.clone()), 0, false)?;
+                                    self.asm(LDA, &ExprType::Immediate(0), pos, false)?;
+                                    self.label(&ifneg_label)?;
+                                }
                                 self.flags = FlagsState::Unknown;
                                 if acc_in_use {
                                     self.asm(STA, &ExprType::Tmp(signed), pos, false)?;
